@@ -8,7 +8,10 @@ package c08
 
 import (
 	"fmt"
+	"math/big"
 	"math/rand"
+	"runtime"
+	"time"
 
 	"vharness/common"
 	"vharness/issuer"
@@ -145,5 +148,49 @@ func Run(cfg *common.Config) (*common.Report, error) {
 			}
 		}
 	}
+	if cfg.Thorough() {
+		if err := weakProbes(cfg, d); err != nil {
+			return nil, err
+		}
+	}
 	return rep, d.Flush()
+}
+
+// weakProbes (thorough only, time-boxed): for an honest issuer state, grind one sibling until
+// the root recomputed for a NEVER-ISSUED claim partially agrees with the true claims tree root,
+// and present that forged bundle: it must be rejected.
+func weakProbes(cfg *common.Config, d *issuer.Driver) error {
+	scs, err := issuer.ProbeTargets(cfg.Rng, 48)
+	if err != nil {
+		return err
+	}
+	sc0 := scs[0]
+	hi, hv, err := sc0.ClaimAlt.HiHv() // sc0's credential, version 1: binds, was never inserted anywhere
+	if err != nil {
+		return err
+	}
+	altHex, _ := sc0.ClaimAlt.Hex()
+	var targets []*big.Int
+	for _, sc := range scs {
+		targets = append(targets, sc.Snap.CTR)
+	}
+	t0 := time.Now()
+	res := issuer.WeakProbe(hi, hv, targets, new(big.Int).SetInt64(cfg.Rng.Int63n(1<<40)), 100*time.Second)
+	d.Rep.Notes = append(d.Rep.Notes, fmt.Sprintf("weak comparison probes (one never-issued claim, forged one-sibling existence proof, %d honest issuer states as targets): %d candidate siblings hashed in %.0f s on %d cores; partial agreements found: %s",
+		len(targets), res.Tried, time.Since(t0).Seconds(), runtime.NumCPU(), res.FoundString()))
+	d.Rep.Distribution["weak-probe-candidates"] = int(res.Tried)
+	for _, kind := range []string{"prefix8", "suffix8", "low32"} {
+		h, ok := res.Found[kind]
+		if !ok {
+			continue
+		}
+		sc := scs[h.Target]
+		proof, env := sc.SMT.Clone(), sc.Env.Clone()
+		proof.CoreClaim = issuer.S(altHex)
+		proof.MTP = &issuer.MTPJ{Existence: true, Siblings: []string{h.Sibling.String()}}
+		if _, _, err := d.Do(sc0.CaseOf("smt", "weak-compare-"+kind, "reject", proof, env)); err != nil {
+			return err
+		}
+	}
+	return nil
 }
